@@ -449,6 +449,47 @@ class Prov:
             return ("agg", "repeat", str(r["n"]), (("0", self.op_tree(r["op"], depth + 1)),))
         return ("unknown", r.get("s", k))
 
+    def _closure_value(self, clo, params):
+        """value tree of calling the in-workspace closure `clo` (an ("agg","closure:KEY",..) tree) with `params`
+        (trees for its declared parameters), or None"""
+        clo = strip(clo)
+        prog = getattr(getattr(self.body, "unit", None), "prog", None)
+        if prog is None or clo[0] != "agg" or not str(clo[1]).startswith("closure:") or getattr(self, "_inl_depth", 0) >= 3:
+            return None
+        key = clo[1][len("closure:"):]
+        cb = None
+        for b in self.body.unit.bodies.values():
+            if b.is_closure and (b.j.get("key") == key or b.key == key):
+                cb = b
+                break
+        if cb is None or cb.argc != len(params) + 1 or len(cb.blocks) > 40:
+            return None
+        # parameters first (the closure's arg indices), captures afterwards: a captured tree is in the CALLER's terms and
+        # may itself mention the caller's arg 2
+        sub = Prov(cb)
+        sub._inl_depth = getattr(self, "_inl_depth", 0) + 1
+        rt = sub.local_tree(0)
+        if _has_unknown(rt) or _has_phi(rt):
+            return None
+        rt = _subst_params(rt, {i + 2: ("marker", i, a) for i, a in enumerate(params)})
+        rt = _subst_env(rt, dict(clo[3]))
+        return _unmark(rt)
+
+    def _option_combinator(self, c, args):
+        """`opt.map(|x| e)` is read as Some(e[x := payload of opt]) - the value it has whenever it is Some - and
+        `opt.filter(..)` as opt: the same trees the explicit `if let Some(x) = opt { .. = Some(e) }` spelling gives
+        to the stores it guards."""
+        if c.get("crate") not in ("core", "std") or "option::" not in c.get("path", "").lower():
+            return None
+        if c["name"] == "map" and len(args) == 2:
+            payload = _project(_project(args[0], "as Some"), "0")
+            v = self._closure_value(args[1], [payload])
+            if v is not None:
+                return ("agg", "Option", "Some", (("0", v),))
+        if c["name"] == "filter" and len(args) == 2:
+            return args[0]
+        return None
+
     def _transparent(self, key, c, args, depth):
         prog = getattr(getattr(self.body, "unit", None), "prog", None)
         if prog is None or depth > 60 or getattr(self, "_inl_depth", 0) >= 3:
@@ -489,6 +530,9 @@ class Prov:
                     return ("cast", kind, args[0], dt, st)
             except Exception:
                 pass
+        oc = self._option_combinator(c, args)
+        if oc is not None:
+            return oc
         inl = self._transparent(key, c, args, depth)
         if inl is not None:
             return inl
@@ -608,6 +652,53 @@ def _subst_params(t, argmap):
     return t
 
 
+def _map_tree(t, f):
+    """rebuild t bottom-up applying f to every node"""
+    k = t[0]
+    if k == "call":
+        t = ("call", t[1], t[2], tuple(_map_tree(a, f) for a in t[3]))
+    elif k == "bin":
+        t = ("bin", t[1], _map_tree(t[2], f), _map_tree(t[3], f))
+    elif k == "un":
+        t = ("un", t[1], _map_tree(t[2], f))
+    elif k == "cast":
+        t = ("cast", t[1], _map_tree(t[2], f)) + tuple(t[3:])
+    elif k == "agg":
+        t = ("agg", t[1], t[2], tuple((n_, _map_tree(s_, f)) for n_, s_ in t[3]))
+    elif k in ("ref", "deref", "discr", "promoted"):
+        t = (k, _map_tree(t[1], f))
+    elif k == "field":
+        t = ("field", _map_tree(t[1], f), t[2])
+    elif k == "phi":
+        t = ("phi", tuple(_map_tree(s_, f) for s_ in t[1]))
+    elif k == "marker":
+        t = ("marker", t[1], t[2])
+    return f(t)
+
+
+def _subst_env(t, caps):
+    def f(n):
+        if n[0] == "path" and n[1] == ("env",):
+            fs = [x for x in n[2] if x != "*"]
+            if fs and fs[0] in caps:
+                rest = list(n[2])
+                rest = rest[rest.index(fs[0]) + 1:]
+                cur = caps[fs[0]]
+                for x in rest:
+                    cur = _project(cur, x)
+                return cur
+        return n
+    return _map_tree(t, f)
+
+
+def _unmark(t):
+    def f(n):
+        if n[0] == "field" and strip(n[1])[0] == "marker":
+            return _project(strip(n[1])[2], n[2])
+        return n[2] if n[0] == "marker" else n
+    return _map_tree(t, f)
+
+
 def _project(cur, n):
     """apply one projection step (field name or '*') to a tree"""
     if n == "*":
@@ -626,6 +717,8 @@ def _project(cur, n):
                 return sub
     if cur[0] == "phi":
         return ("phi", tuple(_project(x, n) for x in cur[1]))
+    if cur[0] == "marker":
+        return ("marker", cur[1], _project(cur[2], n))
     return ("field", cur, n)
 
 
